@@ -8,6 +8,7 @@ import (
 	"path/filepath"
 	"strings"
 	"testing"
+	"time"
 
 	"github.com/zerx-lab/wordZero/pkg/document"
 
@@ -18,7 +19,7 @@ import (
 
 func TestMain(m *testing.M) {
 	document.SetGlobalLevel(document.LogLevelSilent)
-	kit.TestMain(m, 1200, 10000)
+	kit.TestMain(m, 900, 10000)
 }
 
 // ---- interpreter ------------------------------------------------------------------------------------------------------
@@ -44,6 +45,13 @@ type exec struct {
 	tt       tplTrack
 	slotImg  map[int]gen.Img   // what is at the k-th reused path now
 	slotUses map[int][]slotUse // pictures made from the k-th reused path so far
+	// widened domain (widen.go)
+	handles []*handle                     // ImageInfo handles the current document object returned
+	alt     *side                         // the case's other document
+	cfgs    map[int]*document.ImageConfig // the case's shared config objects
+	cfgSize map[int]Size                  // the size configuration each of them was created with
+	cfgUses map[int][]*pic
+	swaps   int
 }
 
 // fileFor writes the payload under its original name when that is a legal file name (else under its base name), at a path
@@ -122,6 +130,10 @@ func imageConfig(sz Size, look []int, alt, title string) *document.ImageConfig {
 		c.Size = &document.ImageSize{Width: sz.W}
 	case "honly":
 		c.Size = &document.ImageSize{Height: sz.H}
+	case "empty":
+		c.Size = &document.ImageSize{}
+	case "emptykeep":
+		c.Size = &document.ImageSize{KeepAspectRatio: true}
 	}
 	l := func(i int) int {
 		if i < len(look) {
@@ -220,13 +232,17 @@ func (x *exec) step(i int, s Step) bool {
 			return true
 		}
 		im := *s.Img
+		var info *document.ImageInfo
+		cfg := x.cfgFor(s.Cfg, *s.Size, s.Look, s.S)
 		if !call(func() error {
-			_, err := x.doc.AddImageFromData(payload(im), im.Name, ops.ImgFormats[im.Fmt], im.W, im.H, imageConfig(*s.Size, s.Look, s.S, ""))
+			var err error
+			info, err = x.doc.AddImageFromData(given(im), im.Name, ops.ImgFormats[im.Fmt], im.W, im.H, cfg)
 			return err
 		}) {
 			return false
 		}
 		p, _ := x.m.apply(s, i)
+		x.made(p, info, s.Cfg)
 		added(p)
 	case "imgfile":
 		if s.Img == nil || s.Size == nil {
@@ -237,8 +253,11 @@ func (x *exec) step(i int, s Step) bool {
 			res.Count("scratch-problem", 1)
 			return true
 		}
+		var info *document.ImageInfo
+		cfg := x.cfgFor(s.Cfg, *s.Size, s.Look, s.S)
 		if !call(func() error {
-			_, err := x.doc.AddImageFromFile(path, imageConfig(*s.Size, s.Look, s.S, ""))
+			var err error
+			info, err = x.doc.AddImageFromFile(path, cfg)
 			return err
 		}) {
 			return false
@@ -247,6 +266,7 @@ func (x *exec) step(i int, s Step) bool {
 		if p != nil {
 			p.name = used
 		}
+		x.made(p, info, s.Cfg)
 		added(p)
 		x.used(s.Slot, p, "body", false)
 	case "table":
@@ -278,6 +298,7 @@ func (x *exec) step(i int, s Step) bool {
 		im := *s.Img
 		sz := *s.Size
 		var f func() error
+		var info *document.ImageInfo
 		used := im.Name
 		slot := 0
 		switch s.K {
@@ -306,18 +327,18 @@ func (x *exec) step(i int, s Step) bool {
 				used, slot = u, s.Slot
 				cfg.FilePath = path
 			} else {
-				cfg.Data = payload(im)
+				cfg.Data = given(im)
 				if s.N%2 == 1 {
 					cfg.Format = ops.ImgFormats[im.Fmt]
 				}
 			}
-			f = func() error { _, err := x.doc.AddCellImage(t, r, c, cfg); return err }
+			f = func() (err error) { info, err = x.doc.AddCellImage(t, r, c, cfg); return err }
 		case "cellimgd":
 			w := 0.0
 			if sz.Mode == "wkeep" {
 				w = sz.W
 			}
-			f = func() error { _, err := x.doc.AddCellImageFromData(t, r, c, payload(im), w); return err }
+			f = func() (err error) { info, err = x.doc.AddCellImageFromData(t, r, c, given(im), w); return err }
 		case "cellimgf":
 			w := 0.0
 			if sz.Mode == "wkeep" {
@@ -329,7 +350,7 @@ func (x *exec) step(i int, s Step) bool {
 				return true
 			}
 			used, slot = u, s.Slot
-			f = func() error { _, err := x.doc.AddCellImageFromFile(t, r, c, path, w); return err }
+			f = func() (err error) { info, err = x.doc.AddCellImageFromFile(t, r, c, path, w); return err }
 		}
 		if !call(f) {
 			return false
@@ -338,6 +359,7 @@ func (x *exec) step(i int, s Step) bool {
 		if p != nil {
 			p.name = used
 		}
+		x.made(p, info, 0)
 		added(p)
 		x.used(slot, p, "cell", false)
 	case "phpara":
@@ -383,10 +405,25 @@ func (x *exec) step(i int, s Step) bool {
 			}
 			x.tdRuns++
 		}
+		if s.Clear {
+			// documented: Clear empties the template data; what earlier renders set is gone
+			td.Clear()
+			for n := range entries {
+				delete(entries, n)
+			}
+			res.Label("templatedata-cleared")
+		}
+		dst := td
+		if s.Merge {
+			td = document.NewTemplateData() // the entries go here first and reach the render's data through Merge
+		}
 		for _, d := range s.Data {
-			b := payload(d.Img)
-			cfg := imageConfig(d.Size, d.Look, "", "")
-			e := tdEntry{via: d.Via, img: d.Img, size: d.Size, name: d.Img.Name, op: i}
+			b := given(d.Img)
+			cfg := x.cfgFor(d.Cfg, d.Size, d.Look, "")
+			if d.Cfg > 0 {
+				d.Size = x.cfgSize[d.Cfg]
+			}
+			e := tdEntry{via: d.Via, img: d.Img, size: d.Size, name: d.Img.Name, op: i, cfg: d.Cfg}
 			switch d.Via {
 			case "file", "details-file":
 				path, u, err := x.fileFor(d.Img, d.Slot)
@@ -419,6 +456,11 @@ func (x *exec) step(i int, s Step) bool {
 			entries[d.Name] = e
 			res.Label("tpl-via:" + d.Via)
 		}
+		if s.Merge {
+			dst.Merge(td)
+			td = dst
+			res.Label("templatedata-merged")
+		}
 		// what every entry of the TemplateData leads to when the render reads it: a path is a reference, the files of
 		// the reused paths are what the last writer left there
 		imgs := map[string]*pic{}
@@ -428,7 +470,8 @@ func (x *exec) step(i int, s Step) bool {
 				im = x.slotImg[e.slot]
 			}
 			b := payload(im)
-			p := &pic{hash: hashOf(b), n: len(b), w: im.W, h: im.H, format: im.Fmt, size: e.size, name: e.name, op: i, stale: e.op != i}
+			p := &pic{hash: hashOf(b), n: len(b), w: im.W, h: im.H, format: im.Fmt, size: e.size, name: e.name, op: i, stale: e.op != i, cfg: e.cfg}
+			p.tail, p.base = tailOf(im)
 			if viaFile(e.via) {
 				p.slot = e.slot
 			}
@@ -437,7 +480,26 @@ func (x *exec) step(i int, s Step) bool {
 		var nd *document.Document
 		base, again := x.tt.base(x.m, s.Eng)
 		shared := s.Eng >= 1
+		shared = shared && s.Eng != 3
+		if s.Eng == 3 {
+			res.Label("render-through-TemplateRenderer")
+		}
 		if !call(func() error {
+			if s.Eng == 3 {
+				// the documented file route: the template is a .docx on disk
+				p := filepath.Join(x.dir, fmt.Sprintf("tpl%d.docx", i))
+				if err := x.doc.Save(p); err != nil {
+					return err
+				}
+				tr := document.NewTemplateRenderer()
+				tr.SetLogging(false)
+				if _, err := tr.LoadTemplateFromFile("t", p); err != nil {
+					return err
+				}
+				var err error
+				nd, err = tr.RenderTemplate("t", td)
+				return err
+			}
 			te := document.NewTemplateEngine()
 			if shared {
 				if x.te == nil {
@@ -471,6 +533,7 @@ func (x *exec) step(i int, s Step) bool {
 		}
 		x.m = base
 		x.doc = nd
+		x.handles = nil
 		info := x.m.render(imgs)
 		x.renders++
 		for _, p := range x.m.pics() {
@@ -516,9 +579,11 @@ func (x *exec) step(i int, s Step) bool {
 			return false
 		}
 	case "reopen", "renumber":
-		b := x.bytesOf(where)
-		if b == nil {
-			return false
+		var b []byte
+		if s.K == "renumber" || !s.B { // (reopen through a file: Save writes the package itself)
+			if b = x.bytesOf(where); b == nil {
+				return false
+			}
 		}
 		if s.K == "renumber" {
 			nf := len(res.Failures)
@@ -534,6 +599,19 @@ func (x *exec) step(i int, s Step) bool {
 				x.foreign = true
 			}
 			b = nb
+			if s.Med != medKeep {
+				mb, mchanged, err := remedia(b, ops.In(s.Med, nMedSchemes), s.MedK)
+				if err != nil {
+					res.Count("renumber-not-applicable", 1)
+					return true
+				}
+				if mchanged > 0 {
+					res.Label("foreign-media-names")
+					res.Label(fmt.Sprintf("foreign-media-names:scheme%d", ops.In(s.Med, nMedSchemes)))
+					x.foreign = true
+				}
+				b = mb
+			}
 			// the renumbered package must itself satisfy the oracle, otherwise the harness's rewrite is wrong
 			if clean {
 				pre := &kit.Result{}
@@ -550,7 +628,17 @@ func (x *exec) step(i int, s Step) bool {
 			var err error
 			if s.B {
 				p := filepath.Join(x.dir, fmt.Sprintf("reopen%d.docx", i))
-				if err := os.WriteFile(p, b, 0o644); err != nil {
+				if s.K == "reopen" {
+					// Save writes the file itself; what it wrote is judged like every saved package
+					if err := x.doc.Save(p); err != nil {
+						return err
+					}
+					fb, err := os.ReadFile(p)
+					if err != nil {
+						return nil
+					}
+					observe(res, where+" (file written by Save)", fb, x.m, &x.unjudged)
+				} else if err := os.WriteFile(p, b, 0o644); err != nil {
 					return nil
 				}
 				nd, err = document.Open(p)
@@ -566,6 +654,7 @@ func (x *exec) step(i int, s Step) bool {
 			return true
 		}
 		x.doc = nd
+		x.handles = nil
 		x.reopens++
 		x.shape = append(x.shape, s.K)
 		if nb := x.bytesOf(where); nb != nil {
@@ -594,6 +683,8 @@ func (x *exec) step(i int, s Step) bool {
 		x.shape = append(x.shape, "listitem")
 	case "para":
 		call(func() error { x.doc.AddParagraph(s.S); return nil })
+	default:
+		return x.widened(i, s, where, call)
 	}
 	return true
 }
@@ -620,9 +711,22 @@ func run(c Case) *kit.Result {
 		if b := x.bytesOf(where); b != nil {
 			observe(res, where, b, x.m, &x.unjudged)
 		}
+		if x.alt != nil {
+			// the other document of the case: nothing done to the current one may have reached it
+			x.swap()
+			where = fmt.Sprintf("op %d (final save of the other document)", len(c.Steps))
+			if b := x.bytesOf(where); b != nil {
+				observe(res, where, b, x.m, &x.unjudged)
+			}
+			x.swap()
+		}
 	}
 	// evidence
 	pics := x.m.pics()
+	if x.alt != nil {
+		pics = append(pics, x.alt.m.pics()...)
+	}
+	x.widenedLabels(pics)
 	formats, srcs, modes := map[string]bool{}, map[string]bool{}, map[string]bool{}
 	names := map[string]string{}
 	for _, p := range pics {
@@ -677,14 +781,22 @@ func isASCII(s string) bool {
 func TestC10(t *testing.T) {
 	kit.Main(t, kit.Spec[Case]{
 		ID: "C10", Level: "exploration",
-		Rule: "history of 3-22 (thorough 3-40) calls: AddImageFromData / AddImageFromFile (png, jpeg, gif payloads 1-64 px made by the standard encoders, traceable by sha256; file-name classes incl. equal names for different payloads, non-ASCII, no extension, misleading extension), AddCellImage / ...FromData / ...FromFile, template paragraphs with {{#image x}} placeholders in the body and in table cells (alone, with text around, several per paragraph, in consecutive paragraphs) rendered through LoadTemplateFromDocument + RenderTemplateToDocument with SetImage / SetImageFromData / SetImageWithDetails, optionally (half of the cases) with sources that outlive one use - one TemplateEngine for all renders of the case (newly loaded documents and the loaded template rendered again), one TemplateData whose entries partly stay from render to render, and up to three file paths whose image the harness replaces (other bytes, format, pixel size) before each AddImageFromFile / AddCellImage(FilePath) / AddCellImageFromFile / SetImage that names them -, interleaved with headers, footers, list items, saves, save->OpenFromMemory/Open cycles and reopening of a copy of the package whose relationship ids were renumbered by the harness (5 schemes); size configs nil / none / WxH / one dimension with KeepAspectRatio / one dimension without, 0.1-500 mm. Reference model = ordered list of pictures by position {payload hash, pixel size, size config} (for a path: hash and pixel size of the bytes that are at the path when the creating call reads it); every saved package is read with the harness's own zip/OPC/XML readers. non-trivial = >=3 pictures of >=2 formats with >=1 reopen or >=1 cell/template picture; distinct = distinct sequence of (step kind, format, size mode, placeholders per paragraph, render outcome)",
+		Rule: "history of 3-22 (thorough 3-40) calls: AddImageFromData / AddImageFromFile (png, jpeg, gif payloads 1-64 px made by the standard encoders, traceable by sha256; file-name classes incl. equal names for different payloads, non-ASCII, no extension, misleading extension), AddCellImage / ...FromData / ...FromFile, template paragraphs with {{#image x}} placeholders in the body and in table cells (alone, with text around, several per paragraph, in consecutive paragraphs) rendered through LoadTemplateFromDocument + RenderTemplateToDocument with SetImage / SetImageFromData / SetImageWithDetails, optionally (half of the cases) with sources that outlive one use - one TemplateEngine for all renders of the case (newly loaded documents and the loaded template rendered again), one TemplateData whose entries partly stay from render to render, and up to three file paths whose image the harness replaces (other bytes, format, pixel size) before each AddImageFromFile / AddCellImage(FilePath) / AddCellImageFromFile / SetImage that names them -, interleaved with headers, footers, list items, saves, save->OpenFromMemory/Open cycles and reopening of a copy of the package whose relationship ids were renumbered by the harness (5 schemes); size configs nil / none / an ImageSize without dimensions / WxH / one dimension with KeepAspectRatio / one dimension without, 0.1-500 mm. Widened: ResizeImage and the other setters that take the ImageInfo an addition of the current document object returned; AddImageFromDataWithoutElement; additions that cannot succeed (missing / empty / non-image file, cell out of range, config without source); *ImageConfig objects reused for several pictures (a third of the cases); a second document the history alternates with; the same bytes twice, payloads with bytes after the end-of-image marker, now and then 65-200 px (media parts > 64 KiB); names the library itself generates, names differing only in case; bursts of 8-13 (rarely 31-36, thorough up to 70) additions followed by reopen and more additions; renders through a TemplateRenderer (Save + LoadTemplateFromFile + RenderTemplate), TemplateData.Merge / Clear; reopen through Save + Open; foreign media part names (absolute targets, leading zeros, numbers shifted past 9/99/999, other names, upper-case extension, zip directory entries) next to the foreign relationship ids. Reference model = ordered list of pictures by position {payload hash, pixel size, size config} (for a path: hash and pixel size of the bytes that are at the path when the creating call reads it); every saved package is read with the harness's own zip/OPC/XML readers. non-trivial = >=3 pictures of >=2 formats with >=1 reopen or >=1 cell/template picture; distinct = distinct sequence of (step kind, format, size mode, placeholders per paragraph, render outcome)",
 		Gen:  genCase, Run: run, Findings: findings, Fixed: fixedCases,
+		// every case works in a scratch directory of its own (image files, saved packages); on a heavily loaded machine creating and
+		// removing it has been seen to stall for many seconds, so the watchdog for a hanging case is wider than the default 20 s
+		CaseLimit: 60 * time.Second,
 		MustSee: map[string]float64{"two-payloads-under-one-name": 0.05, "picture-after-reopen-of-renumbered-package": 0.05, "placeholders-in-adjacent-paragraphs": 0.05,
 			"several-placeholders-in-one-paragraph": 0.05, "placeholder-in-cell": 0.05, "src:cell": 0.2, "src:tpl-body": 0.15, "src:tpl-cell": 0.05, "reopen": 0.3,
 			"fmt:png": 0.3, "fmt:jpeg": 0.3, "fmt:gif": 0.3, "size:wkeep": 0.15, "size:hkeep": 0.1, "size:both": 0.15, "size:none": 0.1, "render-on-document-with-pictures": 0.1,
 			"engine-reused": 0.05, "template-rendered-again": 0.05, "templatedata-reused": 0.04, "stale-templatedata-entry-shown": 0.02,
 			"path-reused-other-pixel-size:tpl": 0.04, "path-reused-other-pixel-size:body": 0.08, "path-reused-other-pixel-size:cell": 0.03,
-			"one-engine-same-path-other-pixel-size": 0.015},
+			"one-engine-same-path-other-pixel-size": 0.015,
+			// widened domain
+			"resize": 0.05, "setter-after-insertion": 0.02, "two-documents-both-with-pictures": 0.05, "config-object-reused-other-aspect-ratio": 0.08,
+			"failed-addition-then-more": 0.03, "media-part-without-picture": 0.02, "pictures>10": 0.1, "foreign-media-names": 0.04,
+			"render-through-TemplateRenderer": 0.05, "templatedata-merged": 0.03, "payload-with-trailing-bytes": 0.1, "payloads-prefix-of-one-another": 0.05,
+			"same-payload-under-two-names": 0.08, "name-the-library-generates": 0.2, "names-differ-only-in-case": 0.04, "size:empty": 0.1, "pixel-size>64": 0.03},
 		Assumptions: []string{
 			"1 mm = 36000 EMU and 1 px at 96 dpi = 9525 EMU; the documentation leaves rounding open, so a given dimension may be off by 1 EMU and a derived one by 1 EMU plus the pixel ratio",
 			"one dimension without KeepAspectRatio: the statement gives no rule, the extent is not judged (counted as extent-not-judged); wp:extent = a:ext is still demanded",
@@ -693,6 +805,11 @@ func TestC10(t *testing.T) {
 			"an r:embed that is the id of several relationships counts as resolved only if all of them lead to the picture's own bytes",
 			"template texts around placeholders contain no other template syntax; placeholders use names of [A-Za-z0-9_]+",
 			"a file path is a reference: the picture shows the bytes that are at the path when the call that creates the picture reads it - AddImageFromFile / AddCellImage / AddCellImageFromFile: that call; TemplateData.SetImage (no error result, cannot read): the render. The harness replaces a file only between such calls, never during one",
+			"ResizeImage (documented: adjusts the picture size; the README calls it on the ImageInfo of a picture that is in the document) makes its ImageSize the picture's size configuration, judged by the same sizing rules; the other setters have no rule in the statement: the picture keeps bytes and extent",
+			"an ImageSize with no dimension set is 'no size given' (pixel size at 96 dpi); a config object passed for several pictures asks the same of each of them, every derived dimension comes from the picture's own pixel ratio",
+			"ImageInfo handles are used only on the document object that returned them, and ResizeImage not on pictures whose config object is shared (the call writes into that object; what this means for its other users is stated nowhere)",
+			"additions that cannot succeed are inputs no implementation could show (no file, no image format, no such cell, no source): no picture may appear and the later ones must be right; whether an error is returned is not judged",
+			"bytes after the end-of-image marker belong to the image file the caller gave (all three decoders stop at the marker): they are stored like the rest",
 		},
 	})
 }
